@@ -227,10 +227,17 @@ fn spec_inner(property: &str, tier: &str) -> Option<CheckSpec> {
 				"grin_servers NetToChainAdapter::block_received / header_received / compact_block_received (hydration from the pool, fallback to the full block): three of four mined blocks reach the node through them".into(),
 			];
 			sp.stub_components = vec![
-				"NetToChainAdapter::transaction_received (the harness calls add_to_pool with the head header as it does, to see the error class)".into(),
-				"the peer behind the adapter's requests (request_block after a failed hydration is answered by the harness)".into(),
-				"wallet, miner, p2p connections (Peers without peers), Dandelion monitor (relay failures and embargo expiry are simulator decisions)".into(),
+				"direct-mode runs: NetToChainAdapter::transaction_received (the harness calls add_to_pool with the head header as it does, to see the error class), the peer behind the adapter's requests, p2p connections (Peers without peers), simulated Dandelion relay".into(),
+				"network-mode runs: the remote peers (simulated, lock-stepped: one message in flight)".into(),
+				"wallet, the miner that extends the chain (the node's own mine_block::get_block is run and judged, but the blocks that enter the history are built by the deterministic harness miner), Dandelion monitor (embargo expiry and epoch changes do not happen within a run)".into(),
 			];
+			sp.engine = "poolsim+netsim".to_string();
+			sp.rule.push_str("; every other run is a network run (E11 netsim): the node is assembled with its complete p2p stack and the real PoolToNetAdapter; submissions arrive as Transaction / StemTransaction messages or announced by kernel hash (TransactionKernel, answered to the node's GetTransaction), blocks as Block / CompactBlock / header-first messages with the node's requests served by the simulated peer; three network runs in four have an outbound peer, which the node's Dandelion epoch uses as stem relay (the others exercise the fall-back to fluff); acceptance is read from the pool's contents. In those runs every MinePool operation first runs the node's own servers::mining::mine_block::get_block (hook H9): it must return within 20 s with a block inside the weight limit, and a replica opened on a copy of the node's data directory must accept that block once its proof of work is solved");
+			sp.real_components.extend(net_real());
+			sp.real_components.push("network-mode runs: servers::mining::mine_block::get_block / build_block (coinbase burn, difficulty, roots) over the node's chain and pool".into());
+			for p in ["netsim_runs", "real_mine_block_built", "real_mine_block_with_transactions", "net_tx_announced_by_kernel_hash", "net_stem_relayed_to_peer", "net_mode_without_relay_peer"] {
+				sp.required_probes.push(p.to_string());
+			}
 			Some(sp)
 		}
 		"C11" => {
@@ -348,6 +355,8 @@ fn world_cfg_for(property: &str, rng: &mut SimRng, quick: bool) -> WorldCfg {
 			cfg.tx_pct = 80;
 			cfg.nrd = rng.chance(1, 2);
 			cfg.uniform_txs = rng.chance(1, 3);
+			// spends sitting exactly on the maturity threshold: what a wrong cutoff header would misjudge
+			cfg.boundary_bias = !cfg.uniform_txs && rng.chance(1, 2);
 		}
 		"C15" => {
 			cfg.tx_pct = 90;
@@ -463,6 +472,19 @@ pub fn build_world_with(property: &str, tier: &str, seed: u64, tweak: impl FnOnc
 	let (kinds, per) = bad_kinds_for(property, &mut r);
 	if w.cfg.trunk < 85 {
 		w.gen_bad(&kinds, per);
+		if property == "C06" {
+			// header-only forks on top of up to three rejected blocks whose header is valid
+			let cands: Vec<usize> = (0..w.bad.len()).filter(|i| !w.bad[*i].header_bad).collect();
+			let mut made = 0;
+			for i in cands {
+				if made >= 3 {
+					break;
+				}
+				if w.gen_ghost_headers(i) {
+					made += 1;
+				}
+			}
+		}
 	}
 	if property == "C08" || (property == "C02" && w.cfg.trunk >= 85) {
 		build_compaction_reorg_scenario(&mut w);
@@ -565,6 +587,11 @@ pub fn chainsim_case(property: &str, tier: &str, seed: u64, case: u64) -> CaseRe
 		}
 		if uses_twin(property) {
 			scfg.n_nodes = 1;
+			if world.bad.iter().any(|b| !b.ghosts.is_empty()) && run % 2 == 1 {
+				// the header-only forks arrive while the honest chain is still below them
+				scfg.headers_first = false;
+				scfg.ghosts_early = true;
+			}
 		}
 		if world.cfg.fork_deep {
 			scfg.side_branches_last = rr.chance(2, 3);
